@@ -81,6 +81,8 @@ def main() -> int:
                 if cp.returncode != 0:
                     rows.append((m["name"], m["property"], "PATCH-FAILED", 0.0, cp.stdout[-200:]))
                     bad += 1
+                    if a.progress:
+                        print(f"{'PATCH-FAILED':14s} {m['property']} {m['name']}  {cp.stdout[-200:]!r}", flush=True)
                     continue
             else:
                 path = os.path.join(d, m["file"])
@@ -88,6 +90,8 @@ def main() -> int:
                 if src.count(m["old"]) != m.get("count", 1):
                     rows.append((m["name"], m["property"], f"ANCHOR-COUNT={src.count(m['old'])}", 0.0, ""))
                     bad += 1
+                    if a.progress:
+                        print(f"{'ANCHOR-COUNT':14s} {m['property']} {m['name']}  count={src.count(m['old'])}", flush=True)
                     continue
                 open(path, "w").write(src.replace(m["old"], m["new"]))
             before = set(os.listdir(os.path.join(VERIF, "replays"))) if os.path.isdir(os.path.join(VERIF, "replays")) else set()
